@@ -81,6 +81,10 @@ claim("C14", "taint analysis from identity fields to the SPIFFE principal regex 
       "Decides three necessary clauses only: C14.1 (every component of the two SPIFFE principal patterns is constant or escaped — two known findings for the unescaped trust-domain host, two reviewed exceptions for partitions), C14.2 (sort by precedence, then de-duplicate by source, then convert, then remove precedence), C14.3 (precedence removal never shortens its list and drops only default-action elements — the seeded truncation class). The semantic equivalence of the generated RBAC algebra with the intention decision for all identities and requests is NOT decided by this family.",
       "DESIGN.md section 3 C14")
 
+claim("C15", "must-pass-through of the graph validation before every config-entries write (escalated to callers) and inside the validator; strongly-connected-component analysis of the compiler's call graph with a memo-before-recursion must-flow rule; edge-cut dominance of the produced chain by the circular-reference check; order-sensitivity classification of every map range reachable from Compile",
+      "Decides C15.1 (every config-entry write/delete is preceded by the validator, and every accepting path of the validator test-compiles the affected chains), C15.2 (both recursive compiler functions check their memo map and record the node before recursing), C15.3 (no chain is produced when the circular-reference check fails), C15.4 (no map range reachable from Compile leaks iteration order into the chain — one genuine defect, F13, was found this way and repaired). Closure of the produced graph and termination for all entry sets are not decided.",
+      "DESIGN.md section 3 C15")
+
 NA_REASON = {}
 
 checks = []
